@@ -311,17 +311,12 @@ def _masked_round_worker(item):
     m = modes.load_module(js)
     name = "ascon_x%d_permute" % K
     f = m.funcs[name]
-    rc = _round_counter(f)
+    from .rules_c08 import round_loop
+    rc = round_loop(f)
     if rc is None:
         rp.unproved_item(rid, "%s %s: round loop not identified" % (cname, name))
         return rp.export()
     cnt, latch, lp = rc
-    inc = f.defs.get(latch) if ir.is_local(latch) else None
-    init = [v for v, p in cnt.d["inc"] if p not in set(lp["blocks"])]
-    if not (inc is not None and inc.op == "add" and inc.ops[0] == cnt.id and ir.const_int(inc.ops[1]) == 1
-            and init and (init[0] == f.params[1])):
-        rp.unproved_item(rid, "%s %s: the round counter does not run from first_round upwards in steps of one" % (cname, name))
-        return rp.export()
     try:
         mc = Machine(m)
         mc.nonlinear = True
